@@ -31,6 +31,7 @@ def correspond(res, vh, exe, texts, what):
     mism = [(t, a, b) for t, a, b in rows if not agree(a, b)]
     res.oblige("correspondence(extracted model): Passes.build_str = builder::build_str on %d %s" % (len(rows), what),
                not mism, "first of %d: %r impl=%s model=%s" % (len(mism), mism[0][0][:300], mism[0][1][:120], mism[0][2][:120]) if mism else "")
+    incoq_slice(res, rows, what)
     out = {}
     kinds = {}
     for t, a, b in rows:
@@ -40,6 +41,49 @@ def correspond(res, vh, exe, texts, what):
         res.count(t, nontrivial=(a not in ("OK - - 4194304 65536 8388608 0 -",)))
     res.extra.setdefault("distribution", {}).update({"observations:" + k: v for k, v in kinds.items()})
     return out
+
+
+def obs_term(o):
+    """the harness observation as a term of Model/Observe.obs, or None when it is not one (CRASH, TIMEOUT)"""
+    d = progrun.parse_obs(o)
+    if d["kind"] == "OK":
+        hexl = lambda h: C.nlist(bytes.fromhex(h))
+        msgs = "[" + "; ".join(C.nlist(m.encode("utf-8")) for m in d["msgs"]) + "]"
+        return "OOk %s %s %d %d %d %d %s" % (hexl(d["code"]), hexl(d["eeprom"]), d["flash"], d["eesize"], d["ram"], d["fill"], msgs)
+    if d["kind"] == "ERR":
+        return "OErr None" if d["line"] is None else "OErr (Some %d)" % d["line"]
+    if d["kind"] == "PANIC":
+        return "OPanic"
+    return None
+
+
+def incoq_slice(res, rows, what, limit=100):
+    """tie B(i): a slice of the run is re-done inside Coq - the model evaluated by the kernel's VM on the same source bytes,
+    compared with the observation of the implementation (no extraction, no OCaml driver involved)"""
+    import hashlib
+    import os
+    small = [(t, a) for t, a, b in rows if len(t.encode("utf-8")) <= 500 and len(a) <= 3000 and obs_term(a) is not None]
+    # spread over the run, deterministic
+    small.sort(key=lambda x: hashlib.sha1(x[0].encode("utf-8")).hexdigest())
+    pick = small[:limit]
+    if not pick:
+        return
+    d = os.path.join(C.COQ, "Cases")
+    os.makedirs(d, exist_ok=True)
+    path = os.path.join(d, "%s_slice.v" % res.prop.lower())
+    body = ("Require Import AvraV.Model.Base AvraV.Model.Passes AvraV.Model.Observe.\nOpen Scope N_scope.\n"
+            "Definition cases : list (list N * obs) := [\n")
+    body += ";\n".join("(%s, %s)" % (C.nlist(t.encode("utf-8")), obs_term(a)) for t, a in pick) + "].\n"
+    body += ('Eval vm_compute in let f := N.to_nat 400000 in Report "slice" (failing (fun c => obs_eqb (observe (Passes.build_str f '
+             '(map Ascii.ascii_of_N (fst c)))) (snd c)) cases) [].\n')
+    open(path, "w").write(body)
+    _, ok, out, secs = C.coqc_file(path, 900)
+    rep = C.parse_reports(out).get("slice")
+    good = ok and rep is not None and rep[0] == []
+    note = ""
+    if not good:
+        note = out[-300:] if rep is None else "model (vm_compute) differs from the implementation on case(s) %s, first: %r" % (rep[0][:5], pick[rep[0][0]][0][:200])
+    res.oblige("correspondence(in-Coq vm_compute): Passes.build_str = builder::build_str on a slice of %d %s" % (len(pick), what), good, note)
 
 
 def fail(res, interface, text, expected, observed, cls, extra=None):
